@@ -46,6 +46,34 @@ func rgReqMethod(r *rand.Rand) string {
 var rgHdrVals = []string{"1", "2", "12", "21"}
 var rgHdrKeys = []string{"X-A", "X-B"}
 
+// separators of lists in header values
+var rgHdrSeps = []string{",", ";", "|", ", "}
+
+// rgHdrPartners: two requests like q whose values of the two headers differ only in where a
+// separator sits: (v+sep, "") and (v, sep) for the headers in one order, ("", sep+v) and (sep, v)
+// in the other - any folding of the values into one string around that separator reads the same
+// for the two of a pair, the router sees different values.
+func rgHdrPartners(r *rand.Rand, q vx.M) []vx.M {
+	v := rgPick(r, rgHdrVals[:3])
+	sep := rgPick(r, rgHdrSeps[:3])
+	k1, k2 := rgHdrKeys[0], rgHdrKeys[1]
+	if r.Intn(2) == 0 {
+		k1, k2 = k2, k1
+	}
+	mk := func(a, b string) vx.M {
+		c := vx.M{}
+		for k, x := range q {
+			c[k] = x
+		}
+		c["hdr"] = vx.M{k1: rhChars(a), k2: rhChars(b)}
+		return c
+	}
+	if r.Intn(2) == 0 {
+		return []vx.M{mk(v+sep, ""), mk(v, sep)}
+	}
+	return []vx.M{mk("", sep+v), mk(sep, v)}
+}
+
 func rgPick(r *rand.Rand, xs []string) string { return xs[r.Intn(len(xs))] }
 
 func rgPath(r *rand.Rand) string {
@@ -263,9 +291,18 @@ func rgEntry(r *rand.Rand, o rgOpts, i, j int, mapper *[]interface{}) vx.M {
 				vals = append(vals, rhChars(v))
 			}
 		}
+		// conditions that the empty string satisfies - and with it a request that does not carry the
+		// header at all: "" among the values, a regexp with nothing between its anchors (^$, ^(.*)$, $)
+		if r.Intn(5) == 0 {
+			vals = append(vals, rhChars(""))
+		}
 		h["values"] = vals
 		if len(vals) == 0 || r.Intn(3) == 0 {
-			h["re"] = rgRE(r, rgPick(r, []string{"1", "2", "12"}))
+			re := rgRE(r, rgPick(r, []string{"1", "2", "12", ""}))
+			if vx.Chars(re["lit"]) == "" && !vx.Bool(re["anchS"]) && !vx.Bool(re["tail"]) && !vx.Bool(re["anchE"]) {
+				re["anchS"], re["anchE"] = true, true // (an expression with nothing in it cannot be written down)
+			}
+			h["re"] = re
 		}
 		hs = append(hs, h)
 	}
@@ -395,6 +432,15 @@ func rgReq(r *rand.Rand, o rgOpts, cfg vx.M, paths []string, clients []vx.M) vx.
 	for _, k := range rgHdrKeys {
 		if r.Intn(2) == 0 {
 			hdr[k] = rhChars(rgPick(r, append(rgHdrVals, "3")))
+			// values with a list separator in them (as Accept, User-Agent, Cookie values have)
+			switch r.Intn(12) {
+			case 0:
+				hdr[k] = rhChars(vx.Chars(hdr[k]) + rgPick(r, rgHdrSeps[:3]))
+			case 1:
+				hdr[k] = rhChars(rgPick(r, rgHdrSeps[:3]) + vx.Chars(hdr[k]))
+			case 2:
+				hdr[k] = rhChars(vx.Chars(hdr[k]) + rgPick(r, rgHdrSeps) + rgPick(r, rgHdrVals))
+			}
 		} else {
 			hdr[k] = []interface{}{}
 		}
